@@ -241,15 +241,16 @@ func (w *w1) discharged(fn *ssa.Function, v ssa.Value, ev dirtyEvent, d int) boo
 		return ok
 	}
 	clean := w.cleans(v, d)
+	alwaysAborts := NewAlwaysInstr(w.c.P, callTo(V.Abort))
 	abortish := func(in ssa.Instruction) bool {
 		cal := staticCallee(in)
 		if cal == nil {
 			return false
 		}
-		if cal == V.Abort || cal == V.errRet {
+		if cal == V.Abort || (V.errRet != nil && cal == V.errRet) {
 			return true
 		}
-		return false
+		return alwaysAborts(in)
 	}
 	isB := func(in ssa.Instruction) bool {
 		if clean(in) || abortish(in) {
